@@ -109,8 +109,9 @@ def handle : List String → String
   | "session" :: rest =>
     match decSession? rest with
     | some a =>
-      let (sent, last, out) := session a.cfg (scriptAdv a.script) a.req
-      outcomeStr out ++ " " ++ toString last ++ " " ++ encLists (sent.map hopBytes)
+      let t := session a.cfg (scriptAdv a.script) a.req
+      outcomeStr t.out ++ " " ++ toString t.last ++ " " ++ encLists (t.sent.map hopBytes)
+        ++ " " ++ toString t.followUps ++ " " ++ toString t.authRetries
     | none => "bad-arg"
   | "crawl" :: tries :: rest =>
     match tries.toNat?, decSession? rest with
